@@ -192,6 +192,16 @@ class PipeRef:
             elif not self.ends[side].dead:
                 return "write_data_frame was refused on a live session (the bytes are lost for stream %d)" % sid
             return None
+        if k == "V":
+            side, sid, n1, n2 = p[1], int(p[2]), int(p[3]), int(p[4])
+            d1 = self.payload(side, sid, n1)
+            d2 = self.payload(side, sid, n2)
+            if tk == "v++":
+                self.wire[side].append((CMD_PSH, sid, d1))
+                self.wire[side].append((CMD_PSH, sid, d2))
+            elif not self.ends[side].dead:
+                return "write_data_frame was refused on a live session (the bytes are lost for stream %d)" % sid
+            return None
         if k in ("S", "A"):
             side, sid, kk, n = p[1], int(p[2]), int(p[3]), int(p[4])
             d = self.payload(side, sid, n)
